@@ -115,7 +115,7 @@ M("C11", GEN, "write_robot_A", '"final_states": my_final_states', '"final": my_f
 # ---- C12 -------------------------------------------------------------------------------------------------------------
 M("C12", CR, "run_games", "for prune_states in [True, False]:", "for prune_states in [False, True]:", "C12.1", "modes reversed: both entries under one key")
 M("C12", CR, "run_games", 'name = name if prune_states else name + "_no_prune"', "name = name", "C12.1", "suffix dropped")
-M("C12", CR, "run_games", "        prev_game_had_solution = True\n        for prune_states in [True, False]:", "        for prune_states in [True, False]:", "C12.4", "flag never re-set (hoist simulated by deletion)")
+M("C12", CR, "run_games", "        prev_game_had_solution = True\n        for prune_states in [True, False]:", "        for prune_states in [True, False]:", "C12.3", "flag never re-set (hoist simulated by deletion)")
 M("C12", CR, "run_games", "final_strategies, reachability_strategies, rewards, probabilities, iterations_reach", "final_strategies, reachability_strategies, probabilities, rewards, iterations_reach", "C12.5", "two slots exchanged in the unpacking")
 M("C12", CR, "run_games", "            reachability_strategies = None\n            final_strategies = None\n            rewards = None\n", "            reachability_strategies = None\n            final_strategies = None\n", "C12.3", "default of rewards not re-established per mode")
 M("C12", CR, "run_games", '                    prev_game_had_solution = False\n', '                    prev_game_had_solution = False\n                    break\n', "C12", "break on failure")
